@@ -4,7 +4,7 @@ import random
 def tagbytes(trk, i, prefix=b"T"):
     return list(prefix + bytes([48 + trk, 58, 97 + (i % 26), 97 + ((i // 26) % 26)]))
 
-def random_song(rng, ntracks=None, maxev=10, loops="none", tempo_changes=True, fmt=1, tempo_rich=False):
+def random_song(rng, ntracks=None, maxev=10, loops="none", tempo_changes=True, fmt=1, tempo_rich=False, ports=False):
     """tempo_rich: several tempo changes in track 0 and mostly NO tempo event at tick 0 (the default tempo is in force until
     the first change): what a rewind / seek / loop jump has to restore then differs from what any later point holds"""
     ntracks = ntracks or rng.choice([1, 1, 2, 2, 3, 4])
@@ -51,6 +51,9 @@ def random_song(rng, ntracks=None, maxev=10, loops="none", tempo_changes=True, f
             else: ev.append([dt, {"k": "cc", "ch": k, "n": 11, "v": rng.randrange(128)}])
         for (chn, note) in sounding:
             ev.append([rng.choice([0, 10, 96]), {"k": "off", "ch": chn, "n": note, "v": 0}])
+        if ports and rng.random() < 0.75:
+            # a port-name meta event (FF 09) first in the track routes it to a MIDI port: synthesizer channel = 16 * port + channel
+            ev.insert(0, [0, {"k": "text", "ty": 9, "b": [rng.choice([65, 66, 66, 67])]}])
         tracks.append({"ev": ev, "eot": rng.choice([0, 0, 0, 96, 400])})
     song = {"e": "Song", "div": div, "fmt": fmt if ntracks > 1 or fmt == 0 else rng.choice([0, 1]), "rs": rng.choice([0, 1]), "tracks": tracks}
     if loops != "none":
@@ -151,6 +154,21 @@ def play_history(rng, song, kind="plain"):
     h.append({"e": "Load"})
     if kind == "gating":
         nt = len(song["tracks"])
+        # a channel of a track that plays on a further MIDI port is switched off: the mask addresses synthesizer channels
+        # 0..15 only, so those notes must still sound (input selection only; the routing is judged by the specification)
+        names = []
+        for tr in song["tracks"]:
+            e0 = tr["ev"][0][1] if tr["ev"] else {}
+            nm = tuple(e0["b"]) if e0.get("k") == "text" and e0.get("ty") == 9 else None
+            if nm is not None and nm not in names: names.append(nm)
+        far = [k for k, tr in enumerate(song["tracks"]) if tr["ev"] and tr["ev"][0][1].get("k") == "text" and tr["ev"][0][1].get("ty") == 9
+               and names.index(tuple(tr["ev"][0][1]["b"])) >= 1]
+        if far and rng.random() < 0.8:
+            h.append({"e": "ChanEn", "c": rng.choice(far), "en": 0})
+            if rng.random() < 0.6:
+                h += rewind_prelude(rng)
+                h.append({"e": "PlayTicks", "steps": [], "max": 3000})
+                return h
         for _ in range(rng.choice([1, 2])):
             r = rng.random()
             if r < 0.5: h.append({"e": "TrackOpt", "t": rng.randrange(nt + 1), "o": rng.choice([1, 2, 2])})
